@@ -10,16 +10,18 @@ Open Scope string_scope.
 Notation connmap := (list (string * list string)).
 
 Inductive stepcase :=
-| SSub (P SC : Circuit) (name : string) (conns : connmap) (strip : bool) (R : Circuit) (oc : outcome)
+(* conns' / d': the caller's connection dict and BlackBox as they are AFTER the call (the same objects may be passed again) *)
+| SSub (P SC : Circuit) (name : string) (conns : connmap) (strip : bool) (R : Circuit) (oc : outcome) (conns' : connmap)
 | SBb (P : Circuit) (d : bbdef) (inst : string) (ins outs : list string) (conns : connmap) (R : Circuit) (oc : outcome)
+      (d' : bbdef) (conns' : connmap)
 | SFill (P : Circuit) (inst : string) (SC : Circuit) (R : Circuit) (oc : outcome)
 | SStrip (C : Circuit) (ign : list string) (obs : res Circuit).
 Inductive case := CHist (l : list stepcase).
 
 Definition agree1 (s : stepcase) : bool :=
   match s with
-  | SSub P SC name conns strip R oc => bool_decide (add_subcircuit_gen strip P SC name conns = (R, oc))
-  | SBb P d inst ins outs conns R oc => bool_decide (add_blackbox P d inst ins outs conns = (R, oc))
+  | SSub P SC name conns strip R oc _ => bool_decide (add_subcircuit_gen strip P SC name conns = (R, oc))
+  | SBb P d inst ins outs conns R oc _ _ => bool_decide (add_blackbox P d inst ins outs conns = (R, oc))
   | SFill P inst SC R oc => bool_decide (fill_blackbox P inst SC = (R, oc))
   | SStrip C ign obs => bool_decide (strip_blackboxes C ign = obs)
   end.
@@ -159,8 +161,9 @@ Definition holds_strip (C : Circuit) (ign : list string) (obs : res Circuit) : b
 
 Definition holds1 (s : stepcase) : bool :=
   match s with
-  | SSub P SC name conns strip R oc => holds_sub P SC name conns strip R oc
-  | SBb P d inst _ _ conns R oc => holds_bb P d inst conns R oc
+  (* the arguments are the caller's: a call that changes its connection map or BlackBox changes what the next call means *)
+  | SSub P SC name conns strip R oc conns' => bool_decide (conns' = conns) && holds_sub P SC name conns strip R oc
+  | SBb P d inst _ _ conns R oc d' conns' => bool_decide (conns' = conns) && bool_decide (d' = d) && holds_bb P d inst conns R oc
   | SFill P inst SC R oc => holds_fill P inst SC R oc
   | SStrip C ign obs => holds_strip C ign obs
   end.
